@@ -105,7 +105,10 @@ ALSO = {
     "C13": ["C04_Panic", "C04_Timeout", "C04_Crash", "C09_DupDeps", "C09_DupCands", "C10_Deadlock",
             "C02_UnsatButSatisfiable", "C01_V_RootReq", "C01_V_RootCons", "C01_V_Known", "C01_V_Req", "C01_V_Cons",
             "C01_V_Excluded", "C01_V_Locked", "C01_V_OnePerName", "C01_DupInSolution", "C01_NotASolvable", "C01_DbNotSatisfied"],
-    "C02": ["C04_Panic", "C04_Timeout", "C04_Crash"],
+    # a verdict is only as good as the clause database: a clause the rules demand that is
+    # missing (requirement, constrains pair, lock, exclusion, at-most-one pair) lets the
+    # solver decide a weaker problem
+    "C02": ["C04_Panic", "C04_Timeout", "C04_Crash", "C01_EncodingIncomplete", "C15_PairNotExcluded"],
     # the at-most-one part of C01 at the level of the encoding
     "C01": ["C15_PairNotExcluded"],
     # an implied assignment whose reason is not unit survives the undo of what justified it:
